@@ -34,6 +34,9 @@ n=$(cksum "$1" | cut -c1-2)
 case $n in
   1*) sleep 0.03;; 2*) sleep 0.01;; 3*) sleep 0.02;; *) ;;
 esac
+case "$1" in
+  *.bad) cat "$1"; echo "giving up on $1" >&2; exit 1;;
+esac
 exec cat "$1"
 """
 
@@ -43,7 +46,9 @@ def gen_tree(rng, root):
     for i in range(n):
         d = os.path.join(root, "d%d" % (i % 7)) if i % 3 else root
         os.makedirs(d, exist_ok=True)
-        ext = ".slow" if rng.chance(1, 6) else ".txt"
+        # .slow: preprocessed slowly; .bad: the preprocessor fails after
+        # having written the whole file (a fault after output was produced)
+        ext = ".slow" if rng.chance(1, 6) else (".bad" if rng.chance(1, 8) else ".txt")
         p = os.path.join(d, "f%03d%s" % (i, ext))
         kind = rng.below(10)
         if kind == 0:
@@ -134,6 +139,10 @@ def blocks_json(out):
         d = m.get("data", {})
         path = json.dumps(d.get("path"), sort_keys=True)
         if t == "begin":
+            if cur is not None and b".bad" in cur[0].encode():
+                # the preprocessor of that file failed: its stream is cut
+                # (single-threaded rg has already printed the beginning)
+                cur = None
             if cur is not None:
                 problems.append("begin inside an open file")
             cur = (path, [])
@@ -150,7 +159,7 @@ def blocks_json(out):
             cur = None
         else:
             cur[1].append(json.dumps(m, sort_keys=True))
-    if cur is not None:
+    if cur is not None and b".bad" not in cur[0].encode():
         problems.append("file without end message")
     if summary != 1:
         problems.append("%d summary messages" % summary)
@@ -199,7 +208,19 @@ def cli_case(case, env):
     modes = MODES if tier == "thorough" else rng.sample(MODES, 4)
     threads = [2, 3, 4, 8, 16] if tier == "thorough" else rng.sample([2, 3, 4, 8, 16], 3)
     reps = 5 if tier == "thorough" else 2
-    base = ["--no-config", "--color", "never", "--pre", pre, "--pre-glob", "*.slow"]
+    base = ["--no-config", "--color", "never", "--pre", pre, "--pre-glob", "*.{slow,bad}"]
+
+    def good(blocks):
+        # results of a file whose preprocessor failed are not comparable
+        # (single-threaded rg has streamed them already, multi-threaded rg
+        # drops them): only the other files' blocks are compared
+        out = []
+        for p, ls in blocks:
+            pb = p if isinstance(p, bytes) else p.encode()
+            if b".bad" in pb.split(b"\0")[0]:
+                continue
+            out.append((p, ls))
+        return out
     for mname, margs, kind in modes:
         pat = [] if mname == "files" else ["-e", pattern]
         ref = common.run_rg(base + margs + ["-j1"] + pat + ["t"], env.tmp, env.home, timeout=300)
@@ -211,7 +232,7 @@ def cli_case(case, env):
             env.viol("C08:%s:single-threaded-output-malformed" % mname, rprob[0],
                      {"kind": "cli", "seed": case["seed"], "mode": mname, "stdout": esc(ref[1][:2000])})
             continue
-        want = sorted((p, tuple(ls)) for p, ls in rblocks)
+        want = sorted((p, tuple(ls)) for p, ls in good(rblocks))
         orders = set()
         for n in threads:
             for r in range(reps):
@@ -234,7 +255,7 @@ def cli_case(case, env):
                     env.viol("C08:%s:file-block-split-or-duplicated" % mname,
                              "-j%d: file %s appears in %d separate blocks" % (n, esc(dup), paths.count(dup)), rp)
                     continue
-                have = sorted((p, tuple(ls)) for p, ls in gblocks)
+                have = sorted((p, tuple(ls)) for p, ls in good(gblocks))
                 if have != want:
                     missing = [p for p, _ in want if p not in set(paths)]
                     extra = [p for p in paths if p not in set(q for q, _ in want)]
@@ -244,7 +265,7 @@ def cli_case(case, env):
                     continue
                 if got[0] != ref[0]:
                     env.viol("C08:%s:exit-status" % mname, "-j%d exits %d, -j1 exits %d" % (n, got[0], ref[0]), rp)
-                if kind == "null" and mname == "context":
+                if kind == "null" and mname == "context" and not any(b".bad" in (p if isinstance(p, bytes) else p.encode()) for p, _ in rblocks):
                     _, _, s1 = blocks_null(ref[1])
                     _, _, sn = blocks_null(got[1])
                     if s1 != sn:
